@@ -5,6 +5,7 @@
 import Pk.Driver.C17
 import Pk.Driver.Mgr
 import Pk.Driver.C15
+import Pk.Driver.C20
 import Pk.Driver.C02
 import Pk.Driver.C04
 import Pk.Driver.C01
@@ -31,6 +32,7 @@ def main (args : List String) : IO UInt32 := do
   | ["c07"] => Pk.Driver.C07.main; return 0
   | ["c02"] => Pk.Driver.C02.main; return 0
   | ["c04"] => Pk.Driver.C04.main; return 0
+  | ["c20"] => Pk.Driver.C20.main; return 0
   | ["c15"] => Pk.Driver.C15.main; return 0
   | "mgr" :: convs => Pk.Driver.Mgr.main convs; return 0
   | _ =>
